@@ -178,7 +178,7 @@ def grammar_cases(draw):
 
 @st.composite
 def raw_cases(draw):
-    script, stack = draw(G.raw_script(max_len=draw(st.sampled_from([4, 16, 64, 300]))))
+    script, stack = draw(G.raw_script(max_len=draw(st.sampled_from([4, 16, 16, 64, 64, 300, 300, 3000, 10000]))))
     return dict(script=script, stack=stack, flags=draw(G.flagsets()), sv=draw(st.sampled_from(G.SIGVERS)), tx=None, cls='raw')
 
 
